@@ -4,6 +4,7 @@ import (
 	"bytes"
 	"context"
 	"fmt"
+	"google.golang.org/protobuf/types/known/structpb"
 
 	"github.com/bmeg/grip/engine/core"
 	"github.com/bmeg/grip/gdbi"
@@ -54,13 +55,17 @@ func (kgdb *KVInterfaceGDB) AddVertex(vertices []*gdbi.Vertex) error {
 	batch := make([]*gdbi.Vertex, 0, len(vertices))
 	ids := make([]string, len(vertices))
 	for i, vert := range vertices {
-		if v := vert.ToVertex(); v.Validate() == nil {
+		if v := vert.ToVertex(); v.Validate() == nil && dataError(vert.Data) == nil {
 			ids[i] = v.Gid
 		}
 	}
 	keep := lastByID(ids)
 	for i, vert := range vertices {
 		if !keep[i] {
+			continue
+		}
+		if err := dataError(vert.Data); err != nil {
+			bulkErr = multierror.Append(bulkErr, fmt.Errorf("vertex %s: %v", vert.ID, err))
 			continue
 		}
 		done, err := kgdb.replaceVertex(vert.ToVertex())
@@ -85,6 +90,14 @@ func (kgdb *KVInterfaceGDB) AddVertex(vertices []*gdbi.Vertex) error {
 		}
 		return bulkErr.ErrorOrNil()
 	})
+	return err
+}
+
+// dataError reports properties that cannot be stored (a property name or a
+// string that is not valid UTF-8, a value of an unsupported type): such an
+// element is refused instead of being stored without its properties
+func dataError(data map[string]interface{}) error {
+	_, err := structpb.NewStruct(data)
 	return err
 }
 
@@ -256,13 +269,17 @@ func (kgdb *KVInterfaceGDB) AddEdge(edges []*gdbi.Edge) error {
 	batch := make([]*gdbi.Edge, 0, len(edges))
 	ids := make([]string, len(edges))
 	for i, edge := range edges {
-		if e := edge.ToEdge(); e.Validate() == nil {
+		if e := edge.ToEdge(); e.Validate() == nil && dataError(edge.Data) == nil {
 			ids[i] = e.Gid
 		}
 	}
 	keep := lastByID(ids)
 	for i, edge := range edges {
 		if !keep[i] {
+			continue
+		}
+		if err := dataError(edge.Data); err != nil {
+			bulkErr = multierror.Append(bulkErr, fmt.Errorf("edge %s: %v", edge.ID, err))
 			continue
 		}
 		done, err := kgdb.replaceEdge(edge.ToEdge())
@@ -306,11 +323,11 @@ func (kgdb *KVInterfaceGDB) BulkAdd(stream <-chan *gdbi.GraphElement) error {
 		ids := make([]string, len(batch))
 		for i, elem := range batch {
 			if elem.Vertex != nil {
-				if v := elem.Vertex.ToVertex(); v.Validate() == nil {
+				if v := elem.Vertex.ToVertex(); v.Validate() == nil && dataError(elem.Vertex.Data) == nil {
 					ids[i] = "v" + v.Gid
 				}
 			} else if elem.Edge != nil {
-				if e := elem.Edge.ToEdge(); e.Validate() == nil {
+				if e := elem.Edge.ToEdge(); e.Validate() == nil && dataError(elem.Edge.Data) == nil {
 					ids[i] = "e" + e.Gid
 				}
 			}
@@ -324,9 +341,13 @@ func (kgdb *KVInterfaceGDB) BulkAdd(stream <-chan *gdbi.GraphElement) error {
 			done := false
 			var err error
 			if elem.Vertex != nil {
-				done, err = kgdb.replaceVertex(elem.Vertex.ToVertex())
+				if err = dataError(elem.Vertex.Data); err == nil {
+					done, err = kgdb.replaceVertex(elem.Vertex.ToVertex())
+				}
 			} else if elem.Edge != nil {
-				done, err = kgdb.replaceEdge(elem.Edge.ToEdge())
+				if err = dataError(elem.Edge.Data); err == nil {
+					done, err = kgdb.replaceEdge(elem.Edge.ToEdge())
+				}
 			}
 			if err != nil {
 				bulkErr = multierror.Append(bulkErr, err)
